@@ -659,7 +659,10 @@ func (st *AclState) applyRequestAccept(ch *aclrecordproto.AclAccountRequestAccep
 	if err != nil {
 		return err
 	}
-	requestRecord, _ := st.requestRecords[ch.RequestRecordId]
+	requestRecord, ok := st.requestRecords[ch.RequestRecordId]
+	if !ok {
+		return ErrNoSuchRequest
+	}
 	pKeyString := mapKeyFromPubKey(acceptIdentity)
 	state, exists := st.accountStates[pKeyString]
 	permissions := AclPermissions(ch.Permissions)
@@ -788,7 +791,11 @@ func (st *AclState) applyRequestDecline(ch *aclrecordproto.AclAccountRequestDecl
 	if err != nil {
 		return err
 	}
-	pk := mapKeyFromPubKey(st.requestRecords[ch.RequestRecordId].RequestIdentity)
+	reqRec, ok := st.requestRecords[ch.RequestRecordId]
+	if !ok {
+		return ErrNoSuchRequest
+	}
+	pk := mapKeyFromPubKey(reqRec.RequestIdentity)
 	accSt, exists := st.accountStates[pk]
 	if !exists {
 		return ErrNoSuchAccount
@@ -805,12 +812,15 @@ func (st *AclState) applyRequestCancel(ch *aclrecordproto.AclAccountRequestCance
 	if err != nil {
 		return err
 	}
-	pk := mapKeyFromPubKey(st.requestRecords[ch.RecordId].RequestIdentity)
+	rec, ok := st.requestRecords[ch.RecordId]
+	if !ok {
+		return ErrNoSuchRequest
+	}
+	pk := mapKeyFromPubKey(rec.RequestIdentity)
 	accSt, exists := st.accountStates[pk]
 	if !exists {
 		return ErrNoSuchAccount
 	}
-	rec := st.requestRecords[ch.RecordId]
 	if rec.Type == RequestTypeJoin {
 		accSt.Status = StatusCanceled
 	} else {
@@ -878,6 +888,10 @@ func (st *AclState) applyAccountRemove(ch *aclrecordproto.AclAccountRemove, reco
 }
 
 func (st *AclState) applyReadKeyChange(ch *aclrecordproto.AclReadKeyChange, record *AclRecord, validate bool) error {
+	if ch == nil {
+		// e.g. an account removal that came without the key rotation it must carry
+		return ErrIncorrectReadKey
+	}
 	if validate {
 		err := st.contentValidator.ValidateReadKeyChange(ch, record.Identity)
 		if err != nil {
